@@ -268,8 +268,9 @@ impl DocFaults {
 
 fn documents(tier: Tier) -> Vec<DocFaults> {
     let mut docs: Vec<(String, Vec<u8>, bool)> = vec![];
-    for (name, path) in [("tests/dlt-messages.xml", "/repo/tests/dlt-messages.xml"), ("tests/robustness.xml", "/repo/tests/robustness.xml")] {
-        if let Ok(b) = std::fs::read(path) {
+    for name in ["tests/dlt-messages.xml", "tests/robustness.xml"] {
+        let path = format!("{}/{}", crate::common::repo_dir(), name);
+        if let Ok(b) = std::fs::read(&path) {
             let small = b.len() <= 4096;
             docs.push((name.to_string(), b, small || tier == Tier::Thorough));
         }
